@@ -126,6 +126,21 @@ impl<E: Elem> World<E> {
         if rf.nrows == 0 || rf.ncols == 0 {
             return;
         }
+        // the memory-order sequence: row by row for a row-major, column by column for a column-major matrix
+        {
+            let (maj, min) = if *order == Order::RowMajor { (rf.nrows, rf.ncols) } else { (rf.ncols, rf.nrows) };
+            let mut it = m.iter_elements();
+            'seq: for a in 0..maj {
+                for b in 0..min {
+                    let (i, j) = if *order == Order::RowMajor { (a, b) } else { (b, a) };
+                    match it.next() {
+                        Some(e) if e.show() == rf.rows[i][j] => {}
+                        Some(e) => { out.oracle_fail(&format!("{what}: memory-order position {} holds {}, expected the element ({i},{j}) = {}", a * min + b, e.show(), rf.rows[i][j])); break 'seq; }
+                        None => { out.oracle_fail(&format!("{what}: iter_elements() ended after {} items", a * min + b)); break 'seq; }
+                    }
+                }
+            }
+        }
         for i in 0..rf.nrows {
             for j in 0..rf.ncols {
                 match m.get((i, j)) {
@@ -1441,8 +1456,13 @@ impl World<Tok> {
     pub fn clone_reg(&mut self, out: &mut Out, dst: usize, a: usize) {
         let op = format!("clone {dst} {a}");
         out.announce(&op);
+        let before = snapshot();
         let m = self.regs[a].as_ref().unwrap().clone();
+        let after = snapshot();
         let (o, rf) = self.refs[a].clone().unwrap();
+        if (after.cloned - before.cloned) as usize != rf.nrows * rf.ncols || after.created != before.created || after.dropped != before.dropped || after.defaults != before.defaults {
+            out.oracle_fail(&format!("{op}: cloning a {}x{} matrix made {} clones, {} other creations, {} drops", rf.nrows, rf.ncols, after.cloned - before.cloned, (after.created - before.created) + (after.defaults - before.defaults), after.dropped - before.dropped));
+        }
         let want = Ref { nrows: rf.nrows, ncols: rf.ncols, rows: rf.rows.iter().map(|r| r.iter().map(|e| format!("{e}'")).collect()).collect() };
         let text = format!("ok | {}", st_str(&m));
         self.regs[dst] = Some(m);
